@@ -218,13 +218,14 @@ where
         self.goal_tree.clear();
         let pd = self.problem_def.as_ref().unwrap();
 
-        // Initialise the trees beginning from start and goal states.
-        let start_state = pd.start_states[0].clone();
-        let start_node = Node {
-            state: start_state,
-            parent_index: None,
-        };
-        self.start_tree.push(start_node);
+        // Initialise the trees beginning from start and goal states. Without a start state the
+        // start tree stays empty and solve() reports an invalid start.
+        if let Some(start_state) = pd.start_states.first().cloned() {
+            self.start_tree.push(Node {
+                state: start_state,
+                parent_index: None,
+            });
+        }
 
         // Draw the goal root from the planner's own (seeded) generator when there is one, so that
         // a seeded planner does not depend on the thread-local generator.
@@ -257,7 +258,7 @@ where
         let goal = &pd.goal;
 
         // A start state rejected by the validity checker must not become part of a solution.
-        if !vc.is_valid(&pd.start_states[0]) {
+        if !pd.start_states.first().is_some_and(|start| vc.is_valid(start)) {
             return Err(PlanningError::InvalidStartState);
         }
 
